@@ -72,6 +72,7 @@ type keySpec struct {
 	Tag     int    `json:"tag"`
 	C       int    `json:"c"`
 	UserOff int    `json:"userOff"`
+	Via     string `json:"via,omitempty"` // format stage: "keytype" = through the key type and streamingaead.New(handle)
 }
 
 type scenario struct {
